@@ -148,6 +148,28 @@ Proof.
   - intros [pre [post [d0 [E [DA P]]]]]. exists pre, post, d0. auto.
 Qed.
 
+(* the order of the list is kept: nearest ancestor first (and _expand_tripledots reverses: nearest last) *)
+Inductive subseq {A} : list A -> list A -> Prop :=
+| subseq_nil : subseq [] []
+| subseq_skip x l l' : subseq l l' -> subseq l (x :: l')
+| subseq_take x l l' : subseq l l' -> subseq (x :: l) (x :: l').
+
+Lemma subseq_nil_l {A} (l : list A) : subseq [] l.
+Proof. induction l; constructor; auto. Qed.
+
+Lemma asp_go_subseq (t : tree) l : forall dev, subseq (asp_go C t dev l) l.
+Proof.
+  induction l as [|f r IH]; intros dev; cbn [asp_go]; [constructor|].
+  destruct (dev_of C t f) as [d|].
+  - destruct dev as [d0|].
+    + destruct (N.eqb d0 d); [apply subseq_take; apply IH|apply subseq_nil_l].
+    + apply subseq_take. apply IH.
+  - apply subseq_skip. apply IH.
+Qed.
+
+Theorem same_partition_order (t : tree) p : subseq (ancestors_on_same_partition C t p) (ancestors p).
+Proof. apply asp_go_subseq. Qed.
+
 (* ".../x": x under every ancestor returned above, farthest first; unsafe joins are dropped;
    any other entry: the one file name, relative to the working directory *)
 Theorem tripledots_entry (t : tree) cwd target_dir p :
